@@ -616,6 +616,47 @@ theorem read_error_only_when_drained (P : Prims) (k : DirKeys) (n : Nat) (s : Co
               exact ⟨rfl, Decidable.of_not_not hd2⟩
           · exact ih _ h
 
+/-- **Reported once, then forgotten**: the call that reports the error leaves no pending error, so
+    the next `Read` goes to the underlying conn again — a temporary error (a read timeout) is
+    recoverable, as before the repair. -/
+theorem read_error_reported_once (P : Prims) (k : DirKeys) (n : Nat) (s : ConnRd) (script : List NetRead)
+    (s' : ConnRd) (d : Bytes) (e : RdErr) (rest : List NetRead)
+    (h : ConnRd.read P k n s script = some (s', d, some e, rest)) : s'.err = none := by
+  induction script generalizing s with
+  | nil =>
+    unfold ConnRd.read at h
+    split at h
+    · cases h
+    · rename_i hd
+      have hd' : s.dec = [] := Decidable.of_not_not hd
+      split at h
+      · simp only [Option.some.injEq, Prod.mk.injEq] at h
+        obtain ⟨rfl, rfl, _, _⟩ := h
+        rfl
+      · cases h
+  | cons r rs ih =>
+    unfold ConnRd.read at h
+    split at h
+    · cases h
+    · rename_i hd
+      have hd' : s.dec = [] := Decidable.of_not_not hd
+      split at h
+      · simp only [Option.some.injEq, Prod.mk.injEq] at h
+        obtain ⟨rfl, rfl, _, _⟩ := h
+        rfl
+      · split at h
+        · cases h
+        · rename_i r' rest' heq
+          cases heq
+          split at h
+          · split at h
+            · cases h
+            · rename_i hd2
+              simp only [Option.some.injEq, Prod.mk.injEq] at h
+              obtain ⟨rfl, rfl, _, _⟩ := h
+              rfl
+          · exact ih _ h
+
 /-- **A read error keeps the buffer**: the call that receives data TOGETHER with an error hands out
     the decoded bytes without an error and remembers the error. -/
 theorem read_error_keeps_buffer (P : Prims) (k : DirKeys) (n : Nat) (s : ConnRd) (r : NetRead) (rest : List NetRead)
